@@ -2,3 +2,6 @@
   Helper lemmas for `Proofs/Core.lean`. The lemmas are split over `Proofs/Lemmas/Core*.lean`; this file collects them.
 -/
 import Proofs.Lemmas.CoreUnfold
+import Proofs.Lemmas.CoreLayout
+import Proofs.Lemmas.CoreRW
+import Proofs.Lemmas.CoreRT
